@@ -122,6 +122,12 @@ func (c *client) PushBlob(ctx context.Context, repo string, desc ociregistry.Des
 	}
 	req.URL = urlWithDigest(location, string(desc.Digest))
 	req.ContentLength = desc.Size
+	if desc.Size == 0 {
+		// Note: net/http treats a zero ContentLength with a non-nil
+		// body as "unknown length" and would send everything that
+		// r holds, so a blob declared empty that isn't would be accepted.
+		req.Body = http.NoBody
+	}
 	req.Header.Set("Content-Type", "application/octet-stream")
 	// TODO: per the spec, the content-range header here is unnecessary.
 	req.Header.Set("Content-Range", ocirequest.RangeString(0, desc.Size))
